@@ -3,7 +3,7 @@ from checks import batchfam
 
 def run(ctx):
     quick = ctx.tier == "quick"
-    batchfam.run_family(ctx, 120 if quick else 6000, 0, 24 if quick else 40)
+    batchfam.run_family(ctx, 120 if quick else 6000, 0, 24 if quick else 40, n_cli=60 if quick else 2000)
     ctx.rule = ("scenario = seeded network + batch of 1..N queries (valid, unreachable, tree search, failing in the input "
                 "plugin, failing in search, missing origin, grid search over destinations, weight estimates) x configured "
                 "and per-run parallelism 1..8 x persistence policy x sink kind, run twice; every query is also run alone "
